@@ -3413,20 +3413,10 @@ func (s *BgpServer) GetBgp(ctx context.Context, r *api.GetBgpRequest) (rsp *api.
 	}
 	err = s.mgmtOperation(func() error {
 		g := s.bgpConfig.Global
-		l := make([]string, 0, len(g.Config.LocalAddressList))
-		for _, addr := range g.Config.LocalAddressList {
-			l = append(l, addr.String())
-		}
-		rsp = &api.GetBgpResponse{
-			Global: &api.Global{
-				Asn:              g.Config.As,
-				RouterId:         g.Config.RouterId.String(),
-				ListenPort:       g.Config.Port,
-				ListenAddresses:  l,
-				UseMultiplePaths: g.UseMultiplePaths.Config.Enabled,
-				BindToDevice:     g.Config.BindToDevice,
-			},
-		}
+		// the same converter the configuration dump uses: it carries every
+		// field StartBgp accepts (families, route selection options, default
+		// route distance, confederation, graceful restart)
+		rsp = &api.GetBgpResponse{Global: oc.NewGlobalFromConfigStruct(&g)}
 		return nil
 	}, false)
 	return rsp, err
